@@ -2,7 +2,8 @@
    clients, all client programs, every maximum queue size and every schedule (induction over
    C15_Model.preach), reusing the notification disciplines and the ranking of Conc_Proofs. *)
 From Coq Require Import List Arith Bool Lia.
-From Muduo Require Import Conc_Model Conc_Proofs C15_Model.
+From Coq Require Import ZArith.
+From Muduo Require Import Conc_Model Conc_Proofs C15_Model Gen_C15.
 Import ListNotations.
 
 Definition call_of (uo : uop) (ops : list uop) : pop * pc :=
@@ -316,6 +317,12 @@ Section Pool.
   Lemma fm_snoc : forall A C (f : A -> list C) l x, flat_map f (l ++ [x]) = flat_map f l ++ f x.
   Proof. intros. rewrite flat_map_app. cbn. rewrite app_nil_r. reflexivity. Qed.
 
+  Lemma flat_map_nil_all : forall A C (f : A -> list C) l, (forall x, In x l -> f x = []) -> flat_map f l = [].
+  Proof.
+    intros A C f l H. induction l as [|x r IH]; auto. cbn. rewrite (H x (or_introl eq_refl)), IH; auto.
+    intros y Hy. apply H. right. auto.
+  Qed.
+
   Lemma existsb_snoc : forall (P : event -> bool) e x, existsb P (e ++ [x]) = existsb P e || P x.
   Proof. intros. rewrite existsb_app. cbn. rewrite orb_false_r. reflexivity. Qed.
 
@@ -331,7 +338,6 @@ Section Pool.
     intros P e. induction e as [|y r IH]; cbn; auto. destruct (P y); cbn; [discriminate|auto].
   Qed.
 
-  Definition not_accept (x : event) : Prop := match x with EvAccept _ _ => False | _ => True end.
 
   Record LInv (sh : pool) (e : list event) : Prop := {
     li_acct : accepted e = taken e ++ queue sh;
@@ -703,8 +709,6 @@ Section Pool.
     destruct C as (_ & Hc). destruct (Hc _ _ _ Hj H0) as (_ & Hs & _). congruence.
   Qed.
 
-  Definition after_stop_ok (x : event) : Prop :=
-    match x with EvStart _ _ | EvTake _ _ | EvAccept _ _ => False | _ => True end.
 
   Record SInv (s : psys) : Prop := {
     si_join : forall t i ops, pc_at s t = Some (CJoin i ops) ->
@@ -1318,4 +1322,419 @@ Section Pool.
     - intros s l s' _ (C & I) H. split; [eapply coh_step; eauto|].
       destruct (pstep_hand _ _ _ C H) as [(-> & _)|(t & p & p' & ev & _ & -> & _)]; auto. rewrite upd_length. auto.
   Qed.
+
+  (* ================================================================ more about stop() *)
+  Record DInv (s : psys) : Prop := {
+    di_done : forall t, pc_at s t = Some WDone -> running (shared (mon s)) = false;
+    di_stop : forall t, In (EvStopSec t) (evs s) ->
+                In (EvStopRet t) (evs s) \/ exists i ops, pc_at s t = Some (CJoin i ops)
+  }.
+
+  Lemma ev_of_stopsec : forall t u o r, In (EvStopSec u) (ev_of t o r) -> u = t /\ o = PStop.
+  Proof.
+    intros t u o r H. destruct o; destruct r as [| |[k0|]| |]; cbn in H; try tauto;
+      destruct H as [H|[]]; try discriminate; inversion H; auto.
+  Qed.
+
+  Lemma DInv_step : forall s l s', coh s -> DInv s -> pstep s l = Some s' -> DInv s'.
+  Proof.
+    intros s l s' C [D St] H.
+    pose proof (running_stays_false _ _ _ H) as F1.
+    pose proof (pstep_sound _ _ _ H) as R.
+    assert (Dold : forall t, pc_at s t = Some WDone -> running (shared (mon s')) = false) by (intros u Hu; apply F1; eapply D; eauto).
+    assert (Sold : forall t ev, In (EvStopSec t) (evs s) -> (forall i ops, pc_at s t = Some (CJoin i ops) ->
+               In (EvStopRet t) (evs s ++ ev) \/ exists i' ops', pc_at s' t = Some (CJoin i' ops')) ->
+               In (EvStopRet t) (evs s ++ ev) \/ exists i' ops', pc_at s' t = Some (CJoin i' ops')).
+    { intros t ev Hin Hk. destruct (St _ Hin) as [Hr|(i & ops & Hp)]; [left; apply in_or_app; auto|eauto]. }
+    clear F1. inversion R; subst.
+    - constructor; [exact Dold|]. intros u Hin. rewrite <- (app_nil_r (evs s)). apply Sold; auto. intros; right; eauto.
+    - constructor; [exact Dold|]. intros u Hin. rewrite <- (app_nil_r (evs s)). apply Sold; auto. intros; right; eauto.
+    - constructor; [exact Dold|]. intros u Hin. rewrite <- (app_nil_r (evs s)). apply Sold; auto. intros; right; eauto.
+    - constructor; [exact Dold|]. intros u Hin. rewrite <- (app_nil_r (evs s)). apply Sold; auto. intros; right; eauto.
+    - (* return from a section *)
+      pose proof (cohL_pc_at _ _ _ _ C H0) as Hpc.
+      assert (Hc1 : coh1 t (nth t (pcs s) WDone) th) by (destruct C as (_ & Hc); eauto).
+      constructor.
+      + intros u Hu. destruct (pc_at_upd _ _ _ _ _ _ _ Hu) as [(-> & E)|(Hne & E)]; [|exact (Dold _ E)].
+        exfalso. destruct (nth t (pcs s) WDone) as [| |kk| |ops0|ops0|ops0|i0 ops0]; cbn in E, Hc1;
+          try discriminate E; try (destruct r as [| |[k0|]| |]; discriminate E).
+        destruct Hc1 as (_ & Hs & _). congruence.
+      + intros u Hin. cbn [evs] in *. apply in_app_or in Hin. destruct Hin as [Hin|Hin].
+        * apply Sold; auto. intros i ops Hp. right.
+          destruct (Nat.eq_dec u t) as [->|Hne].
+          -- exfalso. unfold pc_at in Hp. rewrite Hpc in Hp. inversion Hp as [Hp']. rewrite Hp' in Hc1.
+             destruct Hc1 as (_ & Hs & _). congruence.
+          -- exists i, ops. apply pc_at_upd_other; auto.
+        * destruct (ev_of_stopsec _ _ _ _ Hin) as (-> & ->). right.
+          destruct (nth t (pcs s) WDone) as [| |kk| |ops0|ops0|ops0|i0 ops0] eqn:Ep; cbn in Hc1;
+            try (destruct Hc1 as (_ & _ & Hq); congruence).
+          -- destruct Hc1 as (_ & Hq). rewrite H2 in Hq. discriminate.
+          -- destruct Hc1 as (_ & o' & Hq & [->|(_ & k' & ->)]); rewrite H2 in Hq; discriminate.
+          -- exists 0, ops0. unfold pc_at. cbn [pcs]. rewrite (nth_error_upd_eq _ _ _ _ Hpc). reflexivity.
+    - constructor.
+      + intros u Hu. destruct (pc_at_upd _ _ _ _ _ _ _ Hu) as [(-> & E)|(Hne & E)]; [discriminate E|exact (Dold _ E)].
+      + intros u Hin. rewrite <- (app_nil_r (evs s)). apply Sold; auto. intros i ops Hp. right. exists i, ops.
+        apply pc_at_upd_other; auto. intro; subst. unfold pc_at in *. congruence.
+    - constructor.
+      + intros u Hu. destruct (pc_at_upd _ _ _ _ _ _ _ Hu) as [(-> & E)|(Hne & E)]; [exact H1|exact (Dold _ E)].
+      + intros u Hin. rewrite <- (app_nil_r (evs s)). apply Sold; auto. intros i ops Hp. right. exists i, ops.
+        apply pc_at_upd_other; auto. intro; subst. unfold pc_at in *. congruence.
+    - constructor.
+      + intros u Hu. destruct (pc_at_upd _ _ _ _ _ _ _ Hu) as [(-> & E)|(Hne & E)]; [discriminate E|exact (Dold _ E)].
+      + intros u Hin. cbn [evs] in Hin. apply in_app_or in Hin. destruct Hin as [Hin|[Hin|[]]]; [|discriminate].
+        apply Sold; auto. intros i ops Hp. right. exists i, ops.
+        apply pc_at_upd_other; auto. intro; subst. unfold pc_at in *. congruence.
+    - constructor.
+      + intros u Hu. destruct (pc_at_upd _ _ _ _ _ _ _ Hu) as [(-> & E)|(Hne & E)]; [discriminate E|exact (Dold _ E)].
+      + intros u Hin. cbn [evs] in Hin. apply in_app_or in Hin. destruct Hin as [Hin|[Hin|[]]]; [|discriminate].
+        apply Sold; auto. intros i ops0 Hp. right. exists i, ops0.
+        apply pc_at_upd_other; auto. intro; subst. unfold pc_at in *. congruence.
+    - constructor.
+      + intros u Hu. destruct (pc_at_upd _ _ _ _ _ _ _ Hu) as [(-> & E)|(Hne & E)]; [|exact (Dold _ E)].
+        destruct uo; discriminate E.
+      + intros u Hin. rewrite <- (app_nil_r (evs s)). apply Sold; auto. intros i ops0 Hp. right. exists i, ops0.
+        apply pc_at_upd_other; auto. intro; subst. unfold pc_at in *. congruence.
+    - constructor.
+      + intros u Hu. destruct (pc_at_upd _ _ _ _ _ _ _ Hu) as [(-> & E)|(Hne & E)]; [discriminate E|exact (Dold _ E)].
+      + intros u Hin. rewrite <- (app_nil_r (evs s)). apply Sold; auto. intros i0 ops0 Hp. right.
+        destruct (Nat.eq_dec u t) as [->|Hne].
+        * exists (S i), ops. unfold pc_at in *. cbn [pcs]. rewrite (nth_error_upd_eq _ _ _ _ H0). reflexivity.
+        * exists i0, ops0. apply pc_at_upd_other; auto.
+    - constructor.
+      + intros u Hu. destruct (pc_at_upd _ _ _ _ _ _ _ Hu) as [(-> & E)|(Hne & E)]; [discriminate E|exact (Dold _ E)].
+      + intros u Hin. cbn [evs] in Hin. apply in_app_or in Hin. destruct Hin as [Hin|[Hin|[]]]; [|discriminate].
+        apply Sold; auto. intros i0 ops0 Hp.
+        destruct (Nat.eq_dec u t) as [->|Hne].
+        * left. apply in_or_app. right. left. reflexivity.
+        * right. exists i0, ops0. apply pc_at_upd_other; auto.
+  Qed.
+
+  Theorem DInv_reach : forall progs s, preach nw maxq (pinit nw progs) s -> DInv s.
+  Proof.
+    intros progs s Hr. assert (coh s /\ DInv s) as (_ & I); auto. revert s Hr. apply preach_inv.
+    - split; [apply coh_init|]. constructor.
+      + intros t Hp. exfalso. unfold pc_at, pinit in Hp. cbn [pcs] in Hp. apply nth_error_In in Hp.
+        apply in_app_or in Hp. destruct Hp as [Hp|Hp].
+        * apply repeat_spec in Hp. discriminate.
+        * apply in_map_iff in Hp. destruct Hp as (o & Ho & _). discriminate.
+      + intros t [].
+    - intros s l s' _ (C & I) H. split; [eapply coh_step|eapply DInv_step]; eauto.
+  Qed.
+
+  (* ================================================================ the statements of Properties_C15 *)
+  Notation reachable progs s := (preach nw maxq (pinit nw progs) s).
+
+  Theorem accounting : forall progs s, reachable progs s -> forall k,
+    count_occ Nat.eq_dec (accepted (evs s)) k =
+    count_occ Nat.eq_dec (started (evs s)) k + count_occ Nat.eq_dec (inhand (pcs s)) k +
+    count_occ Nat.eq_dec (queue (shared (mon s))) k.
+  Proof.
+    intros progs s Hr k. rewrite (li_acct _ _ (LInv_reach _ _ Hr)), count_occ_app, (hi_count _ (HInv_reach _ _ Hr)).
+    reflexivity.
+  Qed.
+
+  Theorem at_most_once : forall progs s, reachable progs s -> forall k,
+    count_occ Nat.eq_dec (started (evs s)) k <= count_occ Nat.eq_dec (accepted (evs s)) k.
+  Proof. intros progs s Hr k. rewrite (accounting _ _ Hr k). lia. Qed.
+
+  Lemma accepted_in : forall e, accepted e <> [] -> exists t k, In (EvAccept t k) e.
+  Proof.
+    induction e as [|x r IH]; cbn; [congruence|]. intro H. destruct x; cbn in H; eauto 6;
+      destruct (IH H) as (t0 & k0 & Hin); eauto 6.
+  Qed.
+
+  Theorem quiescent_shape : forall progs s, reachable progs s -> pquiescent nw maxq s ->
+    forall t p th, nth_error (pcs s) t = Some p -> nth_error (threads (mon s)) t = Some th ->
+      p = WDone \/ p = CIdle [] \/
+      (p = WTake /\ st th = Waiting notEmpty /\ queue (shared (mon s)) = [] /\ running (shared (mon s)) = true) \/
+      (exists ops, p = CCall ops /\ st th = Waiting notFull /\ isFull maxq (queue (shared (mon s))) = true /\
+                   running (shared (mon s)) = true).
+  Proof.
+    intros progs s Hr Q. apply quiescent_shape_gen; auto.
+    - eapply coh_reach; eauto.
+    - eapply MInv_reach; eauto.
+    - eapply SInv_reach; eauto.
+    - eapply len_reach; eauto.
+  Qed.
+
+  Theorem exactly_once_unless_stopped : forall progs s, reachable progs s -> pquiescent nw maxq s ->
+    inhand (pcs s) = [] /\
+    (forall k, count_occ Nat.eq_dec (accepted (evs s)) k =
+               count_occ Nat.eq_dec (started (evs s)) k + count_occ Nat.eq_dec (queue (shared (mon s))) k) /\
+    (queue (shared (mon s)) <> [] -> running (shared (mon s)) = false /\ existsb is_stopsec (evs s) = true).
+  Proof.
+    intros progs s Hr Q. pose proof (coh_reach _ _ Hr) as C. pose proof (quiescent_shape _ _ Hr Q) as Sh.
+    assert (Hin : inhand (pcs s) = []).
+    { unfold inhand. apply flat_map_nil_all. intros p Hp. destruct (In_nth_error _ _ Hp) as (t & Ht).
+      destruct (nth_error (threads (mon s)) t) as [th|] eqn:Hn.
+      - destruct (Sh _ _ _ Ht Hn) as [->|[->|[(-> & _)|(ops & -> & _)]]]; reflexivity.
+      - exfalso. apply nth_error_None in Hn. destruct C as (Hlen & _).
+        assert (nth_error (pcs s) t <> None) as Hx by congruence. apply nth_error_Some in Hx. lia. }
+    split; auto. split.
+    - intros k. rewrite (accounting _ _ Hr k), Hin. cbn. lia.
+    - intros Hq. pose proof (LInv_reach _ _ Hr) as L.
+      assert (Hrf : running (shared (mon s)) = false).
+      { destruct (running (shared (mon s))) eqn:Hrun; auto. exfalso.
+        assert (Ha : accepted (evs s) <> []).
+        { rewrite (li_acct _ _ L). intro E. apply app_eq_nil in E. tauto. }
+        destruct (accepted_in _ Ha) as (t & k & Hin').
+        destruct (hi_who _ (HInv_reach _ _ Hr) _ Hin') as (_ & Hnz).
+        pose proof (len_reach _ _ Hr) as Hlen.
+        destruct (nth_error (pcs s) 0) as [p0|] eqn:Hp0; [|apply nth_error_None in Hp0; lia].
+        destruct (nth_error (threads (mon s)) 0) as [th0|] eqn:Hn0.
+        2:{ apply nth_error_None in Hn0. destruct C as (Hl & _). lia. }
+        destruct C as (_ & Hc). pose proof (Hc _ _ _ Hp0 Hn0) as Hc1.
+        destruct (Sh _ _ _ Hp0 Hn0) as [->|[->|[(-> & _ & Hq0 & _)|(ops & -> & _)]]].
+        - pose proof (di_done _ (DInv_reach _ _ Hr) 0 Hp0). congruence.
+        - cbn in Hc1. lia.
+        - congruence.
+        - cbn in Hc1. lia. }
+      split; auto. rewrite (li_flag _ _ L) in Hrf. destruct (existsb is_stopsec (evs s)); auto.
+  Qed.
+
+  Lemma prefix_nth_error : forall (A : Type) (l r : list A) k v, nth_error l k = Some v -> nth_error (l ++ r) k = Some v.
+  Proof. intros A l r k v H. rewrite nth_error_app1; auto. apply nth_error_Some. congruence. Qed.
+
+  Lemma by0 : forall e, (forall x, In x e -> match x with EvTake t _ | EvStart t _ => t = 0 | _ => True end) ->
+    taken e = taken_by 0 e /\ started e = started_by 0 e.
+  Proof.
+    induction e as [|x r IH]; intros H; [auto|].
+    destruct IH as (I1 & I2); [intros y Hy; apply H; right; auto|].
+    pose proof (H x (or_introl eq_refl)) as Hx.
+    unfold taken, taken_by, started, started_by in *. cbn [flat_map]. rewrite I1, I2.
+    destruct x; auto; subst; auto.
+  Qed.
+
+  Lemma inhand0 : forall ps ths, cohL ps ths -> nw <= 1 ->
+    inhand ps = match nth_error ps 0 with Some p => inhand1 p | None => [] end.
+  Proof.
+    intros ps ths (Hlen & Hc) Hnw. destruct ps as [|p0 r]; [reflexivity|]. cbn [nth_error]. unfold inhand. cbn [flat_map].
+    assert (E : flat_map inhand1 r = []).
+    { apply flat_map_nil_all. intros p Hp. destruct (In_nth_error _ _ Hp) as (t & Ht).
+      destruct (nth_error ths (S t)) as [th|] eqn:Hn.
+      - pose proof (Hc (S t) p th Ht Hn) as Hc1. destruct p; cbn in *; auto. lia.
+      - exfalso. apply nth_error_None in Hn. assert (nth_error r t <> None) as Hx by congruence.
+        apply nth_error_Some in Hx. cbn in Hlen. lia. }
+    rewrite E, app_nil_r. reflexivity.
+  Qed.
+
+  Theorem fifo_start_order : forall progs s, reachable progs s ->
+    (exists rest, accepted (evs s) = taken (evs s) ++ rest) /\
+    (forall i k, nth_error (taken (evs s)) i = Some k -> nth_error (accepted (evs s)) i = Some k) /\
+    (forall t, taken_by t (evs s) = started_by t (evs s) ++ inhand_at s t) /\
+    (nw <= 1 -> taken (evs s) = started (evs s) ++ inhand (pcs s)).
+  Proof.
+    intros progs s Hr. pose proof (LInv_reach _ _ Hr) as L. pose proof (HInv_reach _ _ Hr) as Hh.
+    split; [rewrite (li_acct _ _ L); eauto|]. split.
+    - intros i k Hk. rewrite (li_acct _ _ L). apply prefix_nth_error; auto.
+    - split; [apply (hi_by _ Hh)|]. intros Hnw.
+      destruct (by0 (evs s)) as (E1 & E2).
+      { intros x Hx. pose proof (hi_who _ Hh x Hx) as Hw. destruct x; auto; lia. }
+      rewrite E1, E2, (hi_by _ Hh 0), (inhand0 _ _ (coh_reach _ _ Hr) Hnw). reflexivity.
+  Qed.
+
+  Theorem on_pool_thread : forall progs s, reachable progs s ->
+    (forall t k, In (EvStart t k) (evs s) -> t < nw) /\
+    (forall t k, In (EvTake t k) (evs s) -> t < nw) /\
+    (forall t k, In (EvAccept t k) (evs s) -> nw <= t /\ nw <> 0) /\
+    (forall t k, In (EvInline t k) (evs s) -> nw = 0).
+  Proof.
+    intros progs s Hr. pose proof (hi_who _ (HInv_reach _ _ Hr)) as Hw.
+    split; [|split; [|split]]; intros t k Hin; apply (Hw _ Hin).
+  Qed.
+
+  Theorem inline_when_empty : forall progs s, reachable progs s -> nw = 0 ->
+    accepted (evs s) = [] /\ taken (evs s) = [] /\ started (evs s) = [] /\ queue (shared (mon s)) = [].
+  Proof.
+    intros progs s Hr Hz. pose proof (hi_who _ (HInv_reach _ _ Hr)) as Hw.
+    assert (Ha : accepted (evs s) = []).
+    { destruct (accepted (evs s)) as [|a0 l0] eqn:E; auto. exfalso.
+      destruct (accepted_in (evs s)) as (t1 & k1 & Hin); [congruence|]. destruct (Hw _ Hin). lia. }
+    pose proof (li_acct _ _ (LInv_reach _ _ Hr)) as Hacct. rewrite Ha in Hacct. symmetry in Hacct.
+    apply app_eq_nil in Hacct. destruct Hacct as (Ht & Hq). repeat split; auto.
+    unfold started. apply flat_map_nil_all. intros x Hx. specialize (Hw _ Hx). destruct x; auto. lia.
+  Qed.
+
+  Theorem bounded : forall progs s, reachable progs s -> 0 < maxq -> length (queue (shared (mon s))) <= maxq.
+  Proof. intros progs s Hr. apply (li_bound _ _ (LInv_reach _ _ Hr)). Qed.
+
+  (* after stop()'s first block nobody is (or ever again gets) blocked on a condition *)
+  Theorem nobody_waits_after_stop : forall progs s, reachable progs s -> running (shared (mon s)) = false ->
+    forall t th c, nth_error (threads (mon s)) t = Some th -> st th <> Waiting c.
+  Proof.
+    intros progs s Hr Hrf t th c Hn Hs. pose proof (coh_reach _ _ Hr) as C. pose proof (MInv_reach _ _ Hr) as I.
+    destruct (nth_error (pcs s) t) as [p|] eqn:Hp.
+    - assert (running (shared (mon s)) = true); [|congruence].
+      destruct (waiting_cond _ _ _ _ _ C I Hp Hn Hs) as [(_ & ->)|(ops & _ & ->)].
+      + apply (mi_bE _ I). eapply count_pos_nth; eauto. apply is_waiting_true; auto.
+      + apply (mi_bF _ I). eapply count_pos_nth; eauto. apply is_waiting_true; auto.
+    - apply nth_error_None in Hp. destruct C as (Hlen & _).
+      assert (nth_error (threads (mon s)) t <> None) as Hx by congruence. apply nth_error_Some in Hx. lia.
+  Qed.
+
+  Lemma no_spurious_after_stop : forall progs ls s s', reachable progs s -> running (shared (mon s)) = false ->
+    prun nw maxq s ls = Some s' -> pnspur ls = 0.
+  Proof.
+    intros progs. induction ls as [|l r IH]; intros s s' Hr Hrf H; [reflexivity|]. cbn in H.
+    destruct (pstep s l) as [s1|] eqn:E; [|discriminate].
+    unfold pnspur in *. cbn [filter]. destruct (p_is_spurious l) eqn:El.
+    - exfalso. destruct l as [[| |t|]| | | |]; try discriminate.
+      pose proof (pstep_sound _ _ _ E) as R. inversion R; subst.
+      eapply (nobody_waits_after_stop _ _ Hr Hrf); eauto.
+    - eapply IH; [eapply preach_step; eauto| |exact H]. eapply running_stays_false; eauto.
+  Qed.
+
+  Theorem stop_terminates : forall progs s, reachable progs s -> running (shared (mon s)) = false ->
+    (* nobody is blocked *)
+    (forall t th c, nth_error (threads (mon s)) t = Some th -> st th <> Waiting c) /\
+    (* every continuation is finite *)
+    (forall ls s', prun nw maxq s ls = Some s' -> length ls <= pmeasure nw s) /\
+    (* a continuation that cannot be extended has every worker returned, every client finished
+       and every stop() returned *)
+    (forall ls s', prun nw maxq s ls = Some s' -> (forall l, pstep s' l = None) ->
+       (forall t, t < nw -> pc_at s' t = Some WDone) /\
+       (forall t p, nw <= t -> pc_at s' t = Some p -> p = CIdle []) /\
+       (forall t, In (EvStopSec t) (evs s') -> In (EvStopRet t) (evs s'))) /\
+    (* and such a continuation exists *)
+    (exists ls s', prun nw maxq s ls = Some s' /\ forall l, pstep s' l = None).
+  Proof.
+    intros progs s Hr Hrf. pose proof (coh_reach _ _ Hr) as C.
+    assert (Hfin : forall ls s', prun nw maxq s ls = Some s' -> length ls <= pmeasure nw s).
+    { intros ls s' H. pose proof (prun_bound _ _ _ C H) as Hb. rewrite (no_spurious_after_stop _ _ _ _ Hr Hrf H) in Hb.
+      assert (length ls = pnonspur ls + pnspur ls) as El.
+      { unfold pnonspur, pnspur. clear. induction ls as [|l r IH]; cbn; auto. destruct (p_is_spurious l); cbn; lia. }
+      rewrite (no_spurious_after_stop _ _ _ _ Hr Hrf H) in El. lia. }
+    assert (Hend : forall ls s', prun nw maxq s ls = Some s' -> pquiescent nw maxq s' ->
+              (forall t, t < nw -> pc_at s' t = Some WDone) /\
+              (forall t p, nw <= t -> pc_at s' t = Some p -> p = CIdle []) /\
+              (forall t, In (EvStopSec t) (evs s') -> In (EvStopRet t) (evs s')) /\
+              (forall l, pstep s' l = None)).
+    { intros ls s' H Q. pose proof (preach_prun _ _ _ _ Hr H) as Hr'.
+      assert (Hrf' : running (shared (mon s')) = false).
+      { clear Q Hr' Hfin. revert s C Hr Hrf H. induction ls as [|l r IH]; intros s C Hr Hrf H; cbn in H.
+        - inversion H; subst; auto.
+        - destruct (pstep s l) as [s1|] eqn:E; [|discriminate].
+          eapply (IH s1); eauto; [eapply coh_step|eapply preach_step|eapply running_stays_false]; eauto. }
+      pose proof (coh_reach _ _ Hr') as C'. pose proof (quiescent_shape _ _ Hr' Q) as Sh.
+      assert (Hsh : forall t p, pc_at s' t = Some p -> p = WDone \/ p = CIdle []).
+      { intros t p Hp. destruct (nth_error (threads (mon s')) t) as [th|] eqn:Hn.
+        - destruct (Sh _ _ _ Hp Hn) as [->|[->|[(_ & _ & _ & Hx)|(ops & _ & _ & _ & Hx)]]]; auto; congruence.
+        - exfalso. apply nth_error_None in Hn. destruct C' as (Hlen & _).
+          assert (nth_error (pcs s') t <> None) as Hx by (unfold pc_at in Hp; congruence). apply nth_error_Some in Hx. lia. }
+      assert (Hcoh : forall t p, pc_at s' t = Some p -> (p = WDone -> t < nw) /\ (p = CIdle [] -> nw <= t)).
+      { intros t p Hp. destruct (nth_error (threads (mon s')) t) as [th|] eqn:Hn.
+        - destruct C' as (_ & Hc). pose proof (Hc _ _ _ Hp Hn) as Hc1.
+          split; intros ->; cbn in Hc1; tauto.
+        - exfalso. apply nth_error_None in Hn. destruct C' as (Hlen & _).
+          assert (nth_error (pcs s') t <> None) as Hx by (unfold pc_at in Hp; congruence). apply nth_error_Some in Hx. lia. }
+      split; [|split; [|split]].
+      - intros t Ht. pose proof (len_reach _ _ Hr') as Hlen.
+        destruct (pc_at s' t) as [p|] eqn:Hp; [|unfold pc_at in Hp; apply nth_error_None in Hp; lia].
+        destruct (Hsh _ _ Hp) as [->| ->]; auto. destruct (Hcoh _ _ Hp) as (_ & Hx). specialize (Hx eq_refl). lia.
+      - intros t p Ht Hp. destruct (Hsh _ _ Hp) as [->| ->]; auto. destruct (Hcoh _ _ Hp) as (Hx & _). specialize (Hx eq_refl). lia.
+      - intros t Hin. destruct (di_stop _ (DInv_reach _ _ Hr') _ Hin) as [Hx|(i & ops & Hp)]; auto.
+        destruct (Hsh _ _ Hp); discriminate.
+      - intros l. destruct (pstep s' l) as [s2|] eqn:E; auto. exfalso.
+        pose proof (Q _ _ E) as Hl. destruct l as [[| |t|]| | | |]; try discriminate.
+        pose proof (pstep_sound _ _ _ E) as R. inversion R; subst.
+        eapply (nobody_waits_after_stop _ _ Hr' Hrf'); eauto. }
+    split; [apply (nobody_waits_after_stop _ _ Hr Hrf)|]. split; [exact Hfin|]. split.
+    - intros ls s' H Hno. destruct (Hend _ _ H) as (H1 & H2 & H3 & _); auto.
+      intros l s2 E. rewrite Hno in E. discriminate.
+    - destruct (preaches_quiescence s C) as (ls & s' & Hrun & _ & Q). exists ls, s'. split; auto.
+      destruct (Hend _ _ Hrun Q) as (_ & _ & _ & Hx). exact Hx.
+  Qed.
+
+  Theorem nothing_starts_after_stop_returns : forall progs s, reachable progs s ->
+    Forall after_stop_ok (after is_stopret (evs s)) /\
+    (existsb is_stopret (evs s) = true ->
+       running (shared (mon s)) = false /\ forall j, j < nw -> pc_at s j = Some WDone).
+  Proof.
+    intros progs s Hr. pose proof (SInv_reach _ _ Hr) as SI. split; [apply (si_after _ SI)|apply (si_ret _ SI)].
+  Qed.
+
+  Theorem run_after_stop_noop : forall progs s, reachable progs s ->
+    Forall not_accept (after is_stopsec (evs s)) /\
+    running (shared (mon s)) = negb (existsb is_stopsec (evs s)) /\
+    (* a run(k) section evaluated when running_ is false changes nothing and queues nothing *)
+    (forall k, running (shared (mon s)) = false ->
+       pool_body maxq (PRun k) (shared (mon s)) = Ret (shared (mon s)) RRejected []).
+  Proof.
+    intros progs s Hr. pose proof (LInv_reach _ _ Hr) as L. split; [apply (li_frozen _ _ L)|]. split; [apply (li_flag _ _ L)|].
+    intros k Hrf. unfold pool_body, run_waits. rewrite Hrf, andb_false_r. reflexivity.
+  Qed.
+
+  (* quiescence is reached from every reachable state; the bound on schedules with spurious wake-ups *)
+  Theorem quiescence_reached : forall progs s, reachable progs s ->
+    (forall ls s', prun nw maxq s ls = Some s' -> pmeasure nw s' + pnonspur ls <= pmeasure nw s + 2 * pnspur ls) /\
+    (exists ls s', prun nw maxq s ls = Some s' /\ pnspur ls = 0 /\ reachable progs s' /\ pquiescent nw maxq s').
+  Proof.
+    intros progs s Hr. pose proof (coh_reach _ _ Hr) as C. split.
+    - intros ls s' H. eapply prun_bound; eauto.
+    - destruct (preaches_quiescence s C) as (ls & s' & Hrun & Hsp & Q). exists ls, s'. repeat split; auto.
+      eapply preach_prun; eauto.
+  Qed.
 End Pool.
+
+(* ================================================================ link to the generated guards (Gen_C15) *)
+(* the body of the model with every guard replaced by the one regenerated from ThreadPool.cc *)
+Definition gen_body (maxq : nat) (o : pop) (s : pool) : outcome pool pres :=
+  let full := gen_isFull (Z.of_nat maxq) (Z.of_nat (length (queue s))) in
+  let empty := match queue s with [] => true | _ => false end in
+  match o with
+  | PRun k =>
+      if gen_run_waits full (running s) then Block notFull
+      else if gen_run_rejects (running s) then Ret s RRejected []
+      else Ret (mkPool (queue s ++ [k]) (running s)) RAccepted [Notify notEmpty]
+  | PTake =>
+      if gen_take_waits empty (running s) then Block notEmpty
+      else if gen_take_pops empty then
+             match queue s with
+             | k :: q' => Ret (mkPool q' (running s)) (RTask (Some k))
+                            (if gen_take_notifies (Z.of_nat maxq) then [Notify notFull] else [])
+             | [] => Ret s (RTask None) []
+             end
+           else Ret s (RTask None) []
+  | PStop => Ret (mkPool (queue s) false) RUnit [NotifyAll notEmpty; NotifyAll notFull]
+  | PSize => Ret s (RSize (length (queue s))) []
+  end.
+
+Lemma link_isFull : forall m (q : list task), gen_isFull (Z.of_nat m) (Z.of_nat (length q)) = isFull m q.
+Proof.
+  intros m q. unfold gen_isFull, isFull. f_equal.
+  - destruct (0 <? m) eqn:E.
+    + apply Nat.ltb_lt in E. apply Z.gtb_lt. lia.
+    + apply Nat.ltb_ge in E. rewrite Z.gtb_ltb. apply Z.ltb_ge. lia.
+  - destruct (m <=? length q) eqn:E.
+    + apply Nat.leb_le in E. apply Z.geb_le. lia.
+    + apply Nat.leb_gt in E. rewrite Z.geb_leb. apply Z.leb_gt. lia.
+Qed.
+
+Lemma link_take_notifies : forall m, gen_take_notifies (Z.of_nat m) = (0 <? m).
+Proof.
+  intros m. unfold gen_take_notifies. destruct (0 <? m) eqn:E.
+  - apply Nat.ltb_lt in E. apply Z.gtb_lt. lia.
+  - apply Nat.ltb_ge in E. rewrite Z.gtb_ltb. apply Z.ltb_ge. lia.
+Qed.
+
+Lemma link_take_waits : forall (q : list task) r,
+  gen_take_waits (match q with [] => true | _ => false end) r = take_waits q r.
+Proof. reflexivity. Qed.
+
+Lemma link_run_waits : forall m (q : list task) r,
+  gen_run_waits (gen_isFull (Z.of_nat m) (Z.of_nat (length q))) r = run_waits m q r.
+Proof. intros. unfold gen_run_waits, run_waits. rewrite link_isFull. reflexivity. Qed.
+
+Lemma link_run_rejects : forall r, gen_run_rejects r = negb r.
+Proof. reflexivity. Qed.
+
+Lemma link_worker_loops : forall r, gen_worker_loops r = r.
+Proof. reflexivity. Qed.
+
+Theorem link_body : forall maxq o s, gen_body maxq o s = pool_body maxq o s.
+Proof.
+  intros maxq o s. unfold gen_body, pool_body. destruct o as [k| | |]; auto.
+  - rewrite link_run_waits, link_run_rejects. reflexivity.
+  - rewrite link_take_waits, link_take_notifies. unfold gen_take_pops.
+    destruct (queue s); cbn [negb]; destruct (take_waits _ _); reflexivity.
+Qed.
